@@ -18,7 +18,7 @@ var propTable = map[string]*propSpec{
 	},
 	"C15": {
 		ID:          "C15",
-		Rules:       []string{"R-REGTABLE", "R-PATTERN", "R-METER"},
+		Rules:       []string{"R-REGTABLE", "R-PATTERN", "R-METER", "R-WRAP"},
 		Explanation: "Decides the structural part of 'pattern matching follows the manual; a malformed pattern raises a Lua error, never a Go panic; matching work is charged': (R-PATTERN) every item type the pattern compiler can emit has a case in the matcher, nothing reachable from pattern.New panics and every error a compiler helper returns is propagated, and find/match/gmatch/gsub cannot return successfully without going through pattern.New except on the listed branches (find: plain flag, empty pattern, init past the end) — so no shortcut decides on its own what counts as a special character; (R-METER) the matcher's private budget is fed from the quota, what it consumed is charged back, and the matcher's cursor only advances where budget is consumed.",
 		NotDecided:  "the match semantics themselves (leftmost, greedy/lazy, backtracking, captures, %b, %f, gsub/gmatch over empty matches): these quantify over pattern x subject and are value-level. Out-of-range positions handed to the matcher are decided under C04 (R-POS).",
 		Assumptions: []string{"the bypass exemptions for string.find were confirmed against the manual", "R-METER's loop table entries for the matcher (amortised cursor argument) were confirmed by reading"},
@@ -78,7 +78,7 @@ var propTable = map[string]*propSpec{
 	},
 	"C04": {
 		ID:    "C04",
-		Rules: []string{"R-REGTABLE", "R-ARITY", "R-POS", "R-DIVZERO", "R-PANIC", "R-NARROW", "R-RECURSION", "R-ALLOC", "R-SIZECAP", "R-ENCBUF", "R-INDEX"},
+		Rules: []string{"R-REGTABLE", "R-ARITY", "R-POS", "R-DIVZERO", "R-PANIC", "R-NARROW", "R-RECURSION", "R-ALLOC", "R-SIZECAP", "R-ENCBUF", "R-INDEX", "R-WRAP"},
 		Explanation: "Decides structural necessary conditions of 'no Lua source or program can crash the embedding Go process', each of which flags a construct that is a Go panic or a fatal error for some input: " +
 			"(R-ARITY) no registered Go function reads an argument slot beyond its declared arity without a guard; (R-POS) every normalised string position is proved in range before it indexes/slices the subject or is handed to the matcher/unpacker; " +
 			"(R-DIVZERO) every integer division has a divisor excluded from zero on every path; (R-PANIC) every explicit panic is below a recover that keeps its type on every call chain from the API, or is a table-listed internal invariant; " +
@@ -93,7 +93,7 @@ var propTable = map[string]*propSpec{
 	},
 	"C05": {
 		ID:    "C05",
-		Rules: []string{"R-REGTABLE", "R-METER", "R-KILL", "R-CONTEXT"},
+		Rules: []string{"R-REGTABLE", "R-METER", "R-KILL", "R-CONTEXT", "R-WRAP"},
 		Explanation: "Decides the structural content of 'a CPU limit is a hard and uninterceptable bound; no operation runs unmetered': " +
 			"(R-METER) every loop and every call-graph cycle reachable from a cpusafe-declared Go function or the VM core carries a charging call on every cycle, or is bounded by a constant / a length already held / an iterator over a held collection / a pre-charge on its bound, or is table-listed with its bound argument; the dispatch points named by the quota design charge before they work; private budgets are fed from the quota and what they consume is charged; the matcher's cursor only advances where budget is consumed. " +
 			"(R-KILL) no frame other than the designated owners can keep a ContextTerminationError while protecting code that can hit a limit; the error is built only in TerminateContext after the status store; the coroutine forwarding chain is intact; CallContext's kill path runs no Lua code. (R-CONTEXT) CallContext marks the context finished only after everything that can still run Lua (close handlers, finalisers): TerminateContext does nothing for a context that is not live, so an earlier setStatus would let that code run with the limit off.",
